@@ -73,10 +73,27 @@ fn gen_accept_header(rng: &mut Rng) -> Option<(Vec<u8>, Vec<String>)> {
         s.pop();
     }
     if rng.chance(1, 12) {
-        // non-ASCII (obs-text) byte somewhere: the value is not text, nothing is offered
+        // non-ASCII (obs-text) byte somewhere: a server may treat the whole value as unreadable
+        // (nothing offered) or read it token by token; what it can never do is choose something
+        // that is not literally one of the comma-separated tokens - that token set is the bound
         let at = rng.usize_below(s.len() + 1);
         s.insert(at, 0xe9);
-        return Some((s, vec![]));
+        let offered: Vec<String> = s
+            .split(|b| *b == b',')
+            .map(|t| {
+                let mut t = t;
+                while let [b' ' | b'\t', rest @ ..] = t {
+                    t = rest;
+                }
+                while let [rest @ .., b' ' | b'\t'] = t {
+                    t = rest;
+                }
+                t
+            })
+            .filter(|t| t.is_ascii())
+            .map(|t| String::from_utf8_lossy(t).to_string())
+            .collect();
+        return Some((s, offered));
     }
     let offered = toks.iter().map(|t| t.trim().to_string()).collect();
     Some((s, offered))
